@@ -478,8 +478,10 @@ func buildPath(
 	}
 
 	proofNode, ok := proof.Get(*nodeHash)
-	if !ok { // non-existent proof node
-		return emptyBitArray, nil, nil
+	if !ok {
+		// A node on the path is missing from the proof. This is NOT evidence that the key is absent
+		// (absence is shown by an edge whose path diverges from the key): the proof is incomplete.
+		return nil, nil, fmt.Errorf("proof node not found, expected hash: %s", nodeHash.String())
 	}
 
 	// The node set is untrusted input: the node must really hash to the key it is filed under.
